@@ -96,6 +96,11 @@ func (ps *pushSim) RoundTrip(req *http.Request) (*http.Response, error) {
 	req.Body.Close()
 	var env envelope
 	jerr := json.NewDecoder(strings.NewReader(string(body))).Decode(&env)
+	if ps.lenient && jerr == nil && env.Subscription != "" && env.Subscription != ps.sub.Name {
+		// a request of the run's other push subscription (the one with the odd endpoint): its
+		// endpoint does not exist
+		return nil, errors.New("simulated transport error: no such host")
+	}
 	S.YieldTag(req.Context(), "http-arrive", fmt.Sprintf("%s-%03d", env.Message.MessageID, env.DeliveryAttempt))
 	now := time.Now()
 	p := &pushReq{id: len(ps.reqs), arrived: now, afterFault: ps.faultOpen}
@@ -782,6 +787,18 @@ func runPushTiny(t *testing.T, tape *Tape, w *World, variant string, steps int, 
 		return
 	}
 	r.ev("push subscription with minimum backoff %v", minB)
+	if tape.Bool(50) {
+		// a second push subscription whose endpoint is not a usable URL (the API stores any
+		// string): its pushes can only fail, the server has to live with it
+		bad := []string{"http://[::1", "http://a b.invalid/x", "http://push.invalid:port/x", "%zz", ":no-scheme", "http://push.invalid/\x7f", "ht!tp://x", " "}[tape.Intn(8)]
+		_, err := w.Call(context.Background(), "CreateSubscription", &pubsubpb.Subscription{Name: "projects/p/subscriptions/badpush", Topic: topicName(0), PushConfig: &pubsubpb.PushConfig{PushEndpoint: bad}})
+		if p, ok := isPanic(err); ok {
+			out.v = viol("C16", "panic:CreateSubscription", "%v", p.Val)
+			return
+		}
+		r.ev("push subscription with endpoint %q -> %v", bad, code(err))
+		r.Stats["malformed_push_endpoint"]++
+	}
 	sub := r.M.LiveSub(subName(0))
 	sub.attached = true
 	var firstViol *Violation
